@@ -304,6 +304,11 @@ struct ScriptClient {
     sent: Mutex<Option<Vec<u8>>>,
     /// the real client toolchain cache and the size of the packaged toolchain (leg toolchain)
     toolchains: Option<(Arc<dist::ClientToolchains>, usize)>,
+    /// leg aliases: the toolchain is "packaged" as the path it was packaged for, and the scripted build server
+    /// checks that the toolchain of the job contains the executable the job is told to run
+    alias_mode: bool,
+    job_tc: Mutex<Option<Toolchain>>,
+    tc_match: Mutex<Option<bool>>,
     /// when set, do_run_job answers for exactly the requested output paths (leg request)
     requested_outputs: bool,
 }
@@ -324,7 +329,8 @@ fn job_alloc() -> JobAlloc {
 
 #[async_trait]
 impl dist::Client for ScriptClient {
-    async fn do_alloc_job(&self, _: Toolchain) -> anyhow::Result<AllocJobResult> {
+    async fn do_alloc_job(&self, tc: Toolchain) -> anyhow::Result<AllocJobResult> {
+        *self.job_tc.lock().unwrap() = Some(tc);
         match self.s.alloc {
             Alloc::Err(c) => Err(mkerr(c, "alloc job")),
             Alloc::Fail => Ok(AllocJobResult::Fail {
@@ -362,10 +368,42 @@ impl dist::Client for ScriptClient {
     async fn do_run_job(
         &self,
         _: JobAlloc,
-        _: dist::CompileCommand,
+        command: dist::CompileCommand,
         requested: Vec<String>,
         inputs_packager: Box<dyn pkg::InputsPackager>,
     ) -> anyhow::Result<(RunJobResult, PathTransformer)> {
+        if self.alias_mode {
+            // what a build server does: run `command.executable` inside the toolchain the job was allocated with
+            let tc = self.job_tc.lock().unwrap().clone();
+            let packaged_for = match (&self.toolchains, tc) {
+                (Some((tcs, _)), Some(tc)) => match tcs.get_toolchain(&tc) {
+                    Ok(Some(mut f)) => {
+                        use std::io::Read;
+                        let mut b = vec![];
+                        let _ = f.read_to_end(&mut b);
+                        Some(b)
+                    }
+                    _ => None,
+                },
+                _ => None,
+            };
+            let ok = packaged_for.as_deref() == Some(command.executable.as_bytes());
+            *self.tc_match.lock().unwrap() = Some(ok);
+            if !ok {
+                let _ = inputs_packager.write_inputs(&mut vec![])?;
+                return Ok((
+                    RunJobResult::Complete(JobComplete {
+                        output: ProcessOutput::verif_new(
+                            1,
+                            vec![],
+                            format!("bwrap: execvp {}: No such file or directory", command.executable).into_bytes(),
+                        ),
+                        outputs: vec![],
+                    }),
+                    PathTransformer::new(),
+                ));
+            }
+        }
         if self.requested_outputs {
             // what a build server would unpack: the input file inside the inputs archive
             let mut tar = vec![];
@@ -434,7 +472,12 @@ impl dist::Client for ScriptClient {
         if let Some((tcs, size)) = &self.toolchains {
             // the real ClientToolchains::put_toolchain with a packager that writes `size` bytes
             return tcs
-                .verif_put_toolchain(&compiler_path, &weak_key, vec![b'T'; *size], false)
+                .verif_put_toolchain(
+                    &compiler_path,
+                    &weak_key,
+                    if self.alias_mode { compiler_path.as_os_str().as_bytes().to_vec() } else { vec![b'T'; *size] },
+                    false,
+                )
                 .map(|tc| (tc, None));
         }
         match self.s.put {
@@ -730,6 +773,9 @@ fn run_fallback(case: &Sx) -> Sx {
         variant: 0,
         sent: Mutex::new(None),
         toolchains: None,
+        alias_mode: false,
+        job_tc: Mutex::new(None),
+        tc_match: Mutex::new(None),
     });
     let service = SccacheService::<Creator>::mock_with_dist_client(client.clone(), storage, pool);
     let compilation = Box::new(RawCompilation {
@@ -889,6 +935,9 @@ fn run_request(case: &Sx) -> Sx {
             variant,
             sent: Mutex::new(None),
             toolchains: None,
+        alias_mode: false,
+        job_tc: Mutex::new(None),
+        tc_match: Mutex::new(None),
         });
         let dclient: Arc<dyn dist::Client> = client.clone();
         let dc = if s.dist { Some(dclient.clone()) } else { None };
@@ -1050,6 +1099,9 @@ fn run_toolchain(case: &Sx) -> Sx {
                 variant: 0,
                 sent: Mutex::new(None),
                 toolchains: Some((tcs.clone(), size)),
+                alias_mode: false,
+                job_tc: Mutex::new(None),
+                tc_match: Mutex::new(None),
             });
             let service = SccacheService::<Creator>::mock_with_dist_client(
                 client.clone(),
@@ -1468,6 +1520,330 @@ fn run_rustdeps(case: &Sx) -> Sx {
     Sx::L(out)
 }
 
+// ------------------------------------------------------------------ leg aliases
+// One compiler binary reached under several names (a real file, symlinks to it, a copy) through ONE client toolchain
+// cache: real compiler detection / C hasher (weak toolchain key) / get_cached_or_compile / ClientToolchains; the
+// scripted build server refuses to run an executable that is not in the job's toolchain.
+// case: ( ALIAS ... )   0 = gcc, 1 = cc -> gcc, 2 = gcc-12 -> gcc, 3 = gcc2 (a copy of gcc)
+// obs:  ( ( CLASS DT MATCH ) ... )   MATCH: the job's toolchain was packaged for the executable the job runs
+
+fn run_aliases(case: &Sx) -> Sx {
+    let td = tempfile::Builder::new().prefix("vh-c13a-").tempdir_in("/dev/shm").unwrap();
+    let dir = td.path().join("w");
+    std::fs::create_dir_all(&dir).unwrap();
+    std::fs::write(dir.join("foo.h"), b"int g(void);\n").unwrap();
+    age(&dir.join("foo.h"));
+    let gcc = dir.join("gcc");
+    std::fs::write(&gcc, b"#!/bin/sh\n# the compiler\n").unwrap();
+    std::fs::copy(&gcc, dir.join("gcc2")).unwrap();
+    {
+        use std::os::unix::fs::PermissionsExt;
+        for n in ["gcc", "gcc2"] {
+            std::fs::set_permissions(dir.join(n), std::fs::Permissions::from_mode(0o755)).unwrap();
+        }
+    }
+    std::os::unix::fs::symlink("gcc", dir.join("cc")).unwrap();
+    std::os::unix::fs::symlink("gcc", dir.join("gcc-12")).unwrap();
+    let names = ["gcc", "cc", "gcc-12", "gcc2"];
+    let runtime = tokio::runtime::Builder::new_multi_thread().worker_threads(2).enable_all().build().unwrap();
+    let pool = runtime.handle().clone();
+    let storage: Arc<dyn Storage> = Arc::new(DiskCache::new(
+        td.path().join("cache"),
+        u64::MAX,
+        &pool,
+        PreprocessorCacheModeConfig::default(),
+        CacheMode::ReadWrite,
+    ));
+    let tcs = Arc::new(dist::ClientToolchains::new(&td.path().join("toolchains"), 1 << 30, &[]).unwrap());
+    let creator = new_creator();
+    let arguments: Vec<OsString> = vec!["-c".into(), "foo.c".into(), "-o".into(), "foo.o".into()];
+    let mut hashers = HashMap::new();
+    let mut obs = vec![];
+    for (i, a) in case.list().iter().enumerate() {
+        let alias = (a.u64() as usize).min(3);
+        if !hashers.contains_key(&alias) {
+            // the detection may probe more than once, depending on the name
+            for _ in 0..4 {
+                creator
+                    .lock()
+                    .unwrap()
+                    .next_command_spawns(Ok(MockChild::new(exit_status(0), "compiler_id=gcc", "")));
+            }
+            let c = match catch(|| {
+                runtime.block_on(comp::get_compiler_info(creator.clone(), &dir.join(names[alias]), &dir, &[], &[], &pool, None))
+            }) {
+                Ok(Ok(c)) => c.0,
+                _ => return Sx::sym("detection_failed"),
+            };
+            creator.lock().unwrap().children.clear();
+            match c.parse_arguments(&arguments, ".".as_ref(), &[]) {
+                CompilerArguments::Ok(h) => {
+                    hashers.insert(alias, h);
+                }
+                _ => return Sx::sym("parse_arguments_failed"),
+            }
+        }
+        let variant = i as u64 + 10;
+        std::fs::write(dir.join("foo.c"), format!("#include \"foo.h\"\nint f{v}(void) {{ return g() + {v}; }}\n", v = variant)).unwrap();
+        age(&dir.join("foo.c"));
+        let _ = std::fs::remove_file(dir.join("foo.o"));
+        let s = Script {
+            gen: true,
+            dist: true,
+            prep: None,
+            put: None,
+            alloc: Alloc::Ok(true),
+            submit: Submit::Ok,
+            run: Run::Complete(0, vec![(0, W::Ok)]),
+            rewrite: None,
+            local: Local::Exit(0, vec![0]),
+            pre: vec![],
+        };
+        let client = Arc::new(ScriptClient {
+            s: s.clone(),
+            dir: dir.clone(),
+            requested_outputs: true,
+            variant,
+            sent: Mutex::new(None),
+            toolchains: Some((tcs.clone(), 0)),
+            alias_mode: true,
+            job_tc: Mutex::new(None),
+            tc_match: Mutex::new(None),
+        });
+        let dclient: Arc<dyn dist::Client> = client.clone();
+        let service = SccacheService::<Creator>::mock_with_dist_client(dclient.clone(), storage.clone(), pool.clone());
+        for _ in 0..2 {
+            creator.lock().unwrap().next_command_calls(move |args| {
+                if args.iter().any(|a| a == "-E") {
+                    return Ok(MockChild::new(exit_status(0), preprocessed(variant), ""));
+                }
+                Err(anyhow::anyhow!("MOCK spawn failure"))
+            });
+        }
+        let h = hashers[&alias].clone();
+        let res = catch(|| {
+            runtime.block_on(async {
+                let r = h
+                    .get_cached_or_compile(
+                        &service,
+                        Some(dclient.clone()),
+                        creator.clone(),
+                        storage.clone(),
+                        arguments.clone(),
+                        dir.clone(),
+                        vec![],
+                        CacheControl::Default,
+                        pool.clone(),
+                    )
+                    .await;
+                match r {
+                    Ok((CompileResult::CacheMiss(mt, dt, d, fut), out)) => {
+                        let w = fut.await;
+                        Ok((CompileResult::CacheMiss(mt, dt, d, Box::pin(async { w })), out))
+                    }
+                    o => o,
+                }
+            })
+        });
+        creator.lock().unwrap().children.clear();
+        let (class, dt) = match res {
+            Err(_) => ("panic".to_string(), "none"),
+            Ok(Ok((cr, _))) => match &cr {
+                CompileResult::CacheMiss(MissType::Normal, dt, _, _) => ("miss".to_string(), dt_sym(dt)),
+                CompileResult::CompileFailed(dt, _) => ("compile_failed".to_string(), dt_sym(dt)),
+                CompileResult::CacheHit(_) => ("hit".to_string(), "none"),
+                _ => ("other".to_string(), "none"),
+            },
+            Ok(Err(e)) => (classify_err(&e).0, "none"),
+        };
+        let m = client.tc_match.lock().unwrap().take();
+        obs.push(Sx::L(vec![Sx::sym(&class), Sx::sym(dt), Sx::opt(m.map(Sx::bool))]));
+    }
+    Sx::L(obs)
+}
+
+// ------------------------------------------------------------------ leg routes
+// The status a scheduler / build-server route answers a failing stage with (table read from src/dist/http.rs by the
+// translator), through the client's real status mapping: for the scheduler's alloc_job route the REAL
+// `dist::http::Client` talks to a stub scheduler on localhost that answers with that status; for the build-server
+// routes (TLS) the scripted client raises the error class of that status. Then the real dist_or_local_compile.
+// case: ( ROUTE KIND CODE LOCAL )     obs: ( OUT DT ST FS RAN SRC )
+
+fn stub_scheduler(code: u64) -> (u16, std::thread::JoinHandle<()>, Arc<AtomicBool>) {
+    use std::io::{Read, Write};
+    let l = std::net::TcpListener::bind("127.0.0.1:0").unwrap();
+    let port = l.local_addr().unwrap().port();
+    l.set_nonblocking(true).unwrap();
+    let stop = Arc::new(AtomicBool::new(false));
+    let stop2 = stop.clone();
+    let h = std::thread::spawn(move || {
+        while !stop2.load(Ordering::SeqCst) {
+            match l.accept() {
+                Ok((mut c, _)) => {
+                    let _ = c.set_nonblocking(false);
+                    let _ = c.set_read_timeout(Some(std::time::Duration::from_millis(300)));
+                    let mut buf = [0u8; 8192];
+                    let mut got = vec![];
+                    // read the headers and whatever body arrives with them
+                    while let Ok(n) = c.read(&mut buf) {
+                        if n == 0 {
+                            break;
+                        }
+                        got.extend_from_slice(&buf[..n]);
+                        if got.windows(4).any(|w| w == b"\r\n\r\n") {
+                            break;
+                        }
+                    }
+                    let body = b"{\"description\":\"stub scheduler\"}";
+                    let _ = write!(c, "HTTP/1.1 {} STUB\r\nContent-Type: application/json\r\nContent-Length: {}\r\nConnection: close\r\n\r\n", code, body.len());
+                    let _ = c.write_all(body);
+                    let _ = c.flush();
+                }
+                Err(_) => std::thread::sleep(std::time::Duration::from_millis(2)),
+            }
+        }
+    });
+    (port, h, stop)
+}
+
+struct HttpAllocClient {
+    real: dist::http::Client,
+    inner: ScriptClient,
+}
+
+#[async_trait]
+impl dist::Client for HttpAllocClient {
+    async fn do_alloc_job(&self, tc: Toolchain) -> anyhow::Result<AllocJobResult> {
+        self.real.do_alloc_job(tc).await
+    }
+    async fn do_get_status(&self) -> anyhow::Result<SchedulerStatusResult> {
+        unreachable!()
+    }
+    async fn do_submit_toolchain(&self, j: JobAlloc, tc: Toolchain) -> anyhow::Result<SubmitToolchainResult> {
+        self.inner.do_submit_toolchain(j, tc).await
+    }
+    async fn do_run_job(
+        &self,
+        j: JobAlloc,
+        c: dist::CompileCommand,
+        o: Vec<String>,
+        i: Box<dyn pkg::InputsPackager>,
+    ) -> anyhow::Result<(RunJobResult, PathTransformer)> {
+        self.inner.do_run_job(j, c, o, i).await
+    }
+    async fn put_toolchain(
+        &self,
+        p: PathBuf,
+        w: String,
+        t: Box<dyn pkg::ToolchainPackager>,
+    ) -> anyhow::Result<(Toolchain, Option<(String, PathBuf)>)> {
+        self.inner.put_toolchain(p, w, t).await
+    }
+    fn rewrite_includes_only(&self) -> bool {
+        false
+    }
+    fn get_custom_toolchain(&self, _exe: &Path) -> Option<PathBuf> {
+        None
+    }
+}
+
+fn run_routes(case: &Sx) -> Sx {
+    let route = case.arg(0).str();
+    let code = case.arg(2).u64();
+    let lc = case.arg(3);
+    let local = if lc.list().len() == 4 {
+        Local::Exit(dec_i32(lc.arg(1), lc.arg(2)), lc.arg(3).list().iter().map(|p| p.u64()).collect())
+    } else {
+        Local::SpawnErr
+    };
+    let class = if (400..500).contains(&code) { Class::Http } else { Class::Other };
+    let s = Script {
+        gen: true,
+        dist: true,
+        prep: None,
+        put: None,
+        alloc: Alloc::Ok(true),
+        submit: if route == "submit_toolchain" { Submit::Err(class) } else { Submit::Ok },
+        run: if route == "run_job" { Run::Err(class) } else { Run::Complete(0, vec![(0, W::Ok)]) },
+        rewrite: None,
+        local,
+        pre: vec![],
+    };
+    let td = tempfile::Builder::new().prefix("vh-c13h-").tempdir_in("/dev/shm").unwrap();
+    let dir = td.path().join("w");
+    std::fs::create_dir_all(&dir).unwrap();
+    let (runtime, storage) = shared();
+    let pool = runtime.handle().clone();
+    let creator = new_creator();
+    let ran = Arc::new(AtomicBool::new(false));
+    let files = match &s.local {
+        Local::Exit(_, ws) => ws.iter().map(|p| opath(&dir, *p)).collect(),
+        Local::SpawnErr => vec![],
+    };
+    queue_local(&creator, &s, &dir, ran.clone(), files);
+    let inner = ScriptClient {
+        s: s.clone(),
+        dir: dir.clone(),
+        requested_outputs: false,
+        variant: 0,
+        sent: Mutex::new(None),
+        toolchains: None,
+        alias_mode: false,
+        job_tc: Mutex::new(None),
+        tc_match: Mutex::new(None),
+    };
+    let mut stub = None;
+    let client: Arc<dyn dist::Client> = if route == "alloc_job" {
+        let (port, h, stop) = stub_scheduler(code);
+        stub = Some((h, stop));
+        let real = match dist::http::Client::new(
+            &pool,
+            format!("http://127.0.0.1:{}", port).parse().unwrap(),
+            &td.path().join("tc"),
+            1 << 20,
+            &[],
+            "token".into(),
+            false,
+        ) {
+            Ok(c) => c,
+            Err(_) => return Sx::sym("client_new_failed"),
+        };
+        Arc::new(HttpAllocClient { real, inner })
+    } else {
+        Arc::new(inner)
+    };
+    let service = SccacheService::<Creator>::mock_with_dist_client(client.clone(), storage, pool);
+    let compilation = Box::new(RawCompilation {
+        s: s.clone(),
+        dir: dir.clone(),
+        dist_cmd: true,
+    });
+    let res = catch(|| {
+        runtime.block_on(comp::verif_dist_or_local_compile(
+            &service,
+            Some(client.clone()),
+            creator.clone(),
+            dir.clone(),
+            compilation,
+            "weak".into(),
+            "o0".into(),
+        ))
+    });
+    if let Some((h, stop)) = stub {
+        stop.store(true, Ordering::SeqCst);
+        let _ = h.join();
+    }
+    let (out, dt, st, src) = match res {
+        Err(_) => ("panic".to_string(), "none", Sx::L(vec![]), "none"),
+        Ok(Ok((_, dt, o))) => ("ok".to_string(), dt_sym(&dt), enc_st(o.status), src_of(&o.stdout, &o.stderr)),
+        Ok(Err(e)) => {
+            let (k, st, src) = classify_err(&e);
+            (k, "none", st, src)
+        }
+    };
+    Sx::L(vec![Sx::sym(&out), Sx::sym(dt), st, listing(&dir, &oname), Sx::bool(ran.load(Ordering::SeqCst)), Sx::sym(src)])
+}
+
 // ------------------------------------------------------------------ leg args
 
 fn os(b: &Sx) -> OsString {
@@ -1580,7 +1956,9 @@ fn run_args(case: &Sx) -> Sx {
 }
 
 fn main() {
-    vh::quiet_panics();
+    if std::env::var_os("C13_LOUD").is_none() {
+        vh::quiet_panics();
+    }
     let leg = std::env::args().nth(1).unwrap_or_default();
     match leg.as_str() {
         "status" => vh::run_lines(run_status),
@@ -1589,6 +1967,8 @@ fn main() {
         "toolchain" => vh::run_lines(run_toolchain),
         "rustinputs" => vh::run_lines(run_rustinputs),
         "simplify" => vh::run_lines(run_simplify),
+        "aliases" => vh::run_lines(run_aliases),
+        "routes" => vh::run_lines(run_routes),
         "rustdeps" => vh::run_lines(run_rustdeps),
         "args" => vh::run_lines(run_args),
         _ => {
